@@ -157,7 +157,7 @@ func runLedger(j Job) *Result {
 			// that consensus cannot run with an empty set is judged by C11 (recorded finding)
 			c06.Eval("empty-eligible-set-not-judged-here")
 		} else if w.ConsensusHalt != "" {
-			c06.Violate("cometbft-rejects-update-list", "", hist, len(w.Steps), "CometBFT validator-set validation refused the update list: %s", w.ConsensusHalt)
+			c06.Violate("cometbft-rejects-update-list", haltClass(w.ConsensusHalt), hist, len(w.Steps), "CometBFT validator-set validation refused the update list: %s", w.ConsensusHalt)
 		}
 	}
 	if j.From == 0 {
